@@ -12,7 +12,8 @@ RULE = ("cvss_calculator.main() in-process with patched argv/stdin/stdout/stderr
         "{-v valid / invalid / other-version / empty vector, no -v with scripted answers incl. premature end of input}; "
         "oracle: exit status 0, no exception, empty stderr, stdout = what the API reports (scores with ratings, clean and "
         "RH vector, json.dumps(as_json(sort=True, minimal=True), indent=2)) or the library's error message, EOF = newline; "
-        "report part compared with the Lean CLI model; thorough: also a real subprocess; distinct = distinct command lines")
+        "report part compared with the Lean CLI model; thorough: also a real subprocess; distinct = distinct command lines"
+        " + every prefix variant (other-script / superscript / circled digits); clustered illegal-answer runs in interactive sessions; report compared by VALUES in the API's order (layout-tolerant), exact layout auxiliary")
 ASSUMPTIONS = ["VECTOR arguments do not start with '-' (argparse would read them as options)",
                "with several of -2/-3/-4 the selected version is only compared model-vs-code, not against the statement"]
 
